@@ -83,7 +83,7 @@ def h_tokens(k0: int, k1: int, k2: int, k3: int, k4: int, k5: int, k6: int, k7: 
 # ---- the other operation classes --------------------------------------------------------
 def h_tokens_misc(which: int, s: int):
     """
-    pre: 0 <= which <= 11 and 0 <= s <= 2
+    pre: 0 <= which <= 12 and 0 <= s <= 2
     post: _[0]
     post: not _[1]
     """
@@ -94,7 +94,7 @@ def h_tokens_misc(which: int, s: int):
     ok = True
     expect = None
     w = 0
-    for i in range(12):
+    for i in range(13):
         if which == i:
             w = i
 
@@ -257,6 +257,16 @@ def h_tokens_misc(which: int, s: int):
                 r = D.call(prog())
                 expect = 3 * s + 2 * s
                 good = r[0] == "ok" and len(r[1]) == 1 and same_seq(r[1][0], items)
+            elif w == 12:  # tee without a lock (must not look for a running loop)
+                src = W.source(items, "acls")
+
+                async def prog():
+                    async with A.tee(src, 2) as (a, b):
+                        return [await A.anext(a), await A.anext(b), await A.anext(a), await A.anext(b)]
+
+                r = D.call(prog())
+                expect = 2 * s
+                good = r[0] == "ok" and same_seq(r[1], [items[0], items[0], items[1], items[1]])
             else:  # closing / nullcontext / decorator use
                 class Thing:
                     async def aclose(self):
@@ -307,7 +317,7 @@ def _grid():
     return out
 
 
-GRID = {"h_tokens": _grid, "h_tokens_misc": lambda: [(w, s) for w in range(12) for s in range(3)]}
+GRID = {"h_tokens": _grid, "h_tokens_misc": lambda: [(w, s) for w in range(13) for s in range(3)]}
 
 TOOLS1 = ["filter", "filter_none", "filterfalse", "takewhile", "dropwhile", "pairwise", "cycle", "accumulate_f", "accumulate_f_init", "enumerate", "batched", "starmap", "islice", "iter_sentinel"]
 TOOLS2 = ["zip", "zip_longest", "map", "chain", "chain_from", "compress", "merge"]
@@ -342,7 +352,7 @@ def jobs(tier):
 
 
 BOUNDS = {
-    "quick": "user awaitables (source pulls, async callables, locks, context managers) suspend 0..2 times (sources, locks, context managers) / 0..1 times (callables) each (symbolic), every suspension yields a fresh token object and expects its token-specific reply; N<=2 items (two-source tools N<=1); 12 further operation classes (contextmanager, ExitStack, lru_cache, cached_property+lock, any_iter, await_each, apply, sync, scoped_iter/borrow, tee+lock, groupby, closing/nullcontext/decorator); asyncio loop accessors stubbed to raise",
+    "quick": "user awaitables (source pulls, async callables, locks, context managers) suspend 0..2 times (sources, locks, context managers) / 0..1 times (callables) each (symbolic), every suspension yields a fresh token object and expects its token-specific reply; N<=2 items (two-source tools N<=1); 13 further operation classes (contextmanager, ExitStack, lru_cache, cached_property+lock, any_iter, await_each, apply, sync, scoped_iter/borrow, tee+lock, groupby, closing/nullcontext/decorator); asyncio loop accessors stubbed to raise",
     "thorough": "N<=3 (two-source tools N<=2)",
 }
 OUTSIDE = ["running under real asyncio/trio loops (nothing loop-specific can be reached without failing the token or loop-accessor checks, but that is an argument, not a check)", "lengths above the bound"]
